@@ -42,7 +42,17 @@ var HANDLER = {
   isExtensible: function(t) { CALLS.push("isext"); return ANS; },
   preventExtensions: function(t) { CALLS.push("prevent"); return ANS; },
 };
+// TestIntegrityLevel completes the trap's descriptor: a data descriptor without "value" is a writable data property all the same
+function integrityOfPartialDescriptors() {
+  var t = {}; Object.defineProperty(t, "a", {value: 1, writable: true, enumerable: true, configurable: false}); Object.preventExtensions(t);
+  var p = new Proxy(t, {getOwnPropertyDescriptor: function (t, k) { return {configurable: false, writable: true, enumerable: true}; }});
+  if (Object.isFrozen(p) !== false || Object.isSealed(p) !== true) throw new Error("Object.isFrozen / isSealed of a proxy whose getOwnPropertyDescriptor trap omits value: " + Object.isFrozen(p) + "," + Object.isSealed(p) + ", the target: false,true");
+  var t2 = {}; Object.defineProperty(t2, "a", {get: function () {}, configurable: false}); Object.preventExtensions(t2);
+  var p2 = new Proxy(t2, {getOwnPropertyDescriptor: function (t, k) { return {configurable: false, get: Reflect.getOwnPropertyDescriptor(t, k).get}; }});
+  if (Object.isFrozen(p2) !== true) throw new Error("Object.isFrozen of a proxy over a frozen accessor-only target");
+}
 function reset() {
+  integrityOfPartialDescriptors();
   REVOKED = false; CALLS = [];
   P1 = CFG.target === "func" ? Object.create(Function.prototype) : CFG.target === "array" ? Object.create(Array.prototype) : {};
   P2 = Object.create(P1);
